@@ -64,6 +64,12 @@ def factors(draw, max_factors=3, max_pts=4):
     """(wts, pos): nested lists; no factor has all-zero weights (one slot forced positive)"""
     nf = draw(st.integers(1, max_factors))
     sizes = draw(st.lists(st.integers(1, max_pts), min_size=nf, max_size=nf))
+    if max_factors >= 3 and draw(st.integers(0, 3)) == 0:
+        # more, smaller factors (4-5 of 1-3 points, single-point factors in the middle): strides in pack/unpack
+        nf = draw(st.integers(4, 5))
+        sizes = draw(st.lists(st.sampled_from([1, 1, 2, 2, 3]), min_size=nf, max_size=nf))
+        while _prod(sizes) > 72:
+            sizes[sizes.index(max(sizes))] -= 1
     wts = []; pos = []
     for n in sizes:
         w = draw(st.lists(_w(), min_size=n, max_size=n))
@@ -79,6 +85,13 @@ def factors(draw, max_factors=3, max_pts=4):
             w = [wi / s for wi in w]
         wts.append(w); pos.append(x)
     return wts, pos
+
+
+def _prod(ns):
+    n = 1
+    for k_ in ns:
+        n *= k_
+    return n
 
 
 def _npts(wts):
@@ -307,7 +320,8 @@ def shape_labels(ctx, wts, pos):
     if all(abs(math.fsum(w) - 1.0) < 1e-9 for w in wts):
         ctx.label('mass-1')
     n = _npts(wts)
-    ctx.label('npts:1' if n == 1 else 'npts:2-7' if n < 8 else 'npts:8-23' if n < 24 else 'npts:24-64')
+    ctx.label('npts:1' if n == 1 else 'npts:2-7' if n < 8 else 'npts:8-23' if n < 24 else 'npts:24+')
+    ctx.label('factors:%s' % (len(wts) if len(wts) < 4 else '4-5'))
     return len(sizes) >= 2 and (len(set(sizes)) > 1 or zero)
 
 
